@@ -51,7 +51,8 @@ template <typename AD, typename T, typename EQ> static const void * check_holder
 	if(expectAddr) vf_assert(p == expectAddr, 182);            // stable while the holder lives
 	vf_assert(equal(r1), 183);
 	vf_assert(a.template isType<T>(), 184);
-	vf_assert(a.template isType<const T>() && a.template isType<T &>(), 185);
+	if constexpr (std::is_copy_constructible<T>::value) vf_assert(a.template isType<const T>() && a.template isType<const T &>(), 185);
+	vf_assert(a.template isType<T &>(), 185);
 	vf_assert(! a.template isType<Other1>() && ! a.template isType<Other2>() && ! a.template isType<int>(), 186);
 	return p;
 }
